@@ -59,8 +59,15 @@ Theorem C03_parsed_fields : forall r st h i f,
          nth_error iv j = Some (be_dec (firstn (width (sprim s)) (skipn (soff s - hdr_of "Item") it)))).
 Proof. intros r st h i f Hwf Hst Hi. exact (c03_parsed_fields r st Hwf Hst h i f Hi). Qed.
 
+From Peppi Require Proofs.ReaderTies.
+(* the reader model these theorems speak about is the one regenerated from the source on this run: one-shot read, every incremental
+   entry point, the event dispatch with the splitter, the Game Start wiring, the metadata reader (Proofs/ReaderTies.v reader_tied) *)
+Theorem C03_reader_is_the_source : ReaderTies.reader_tied.
+Proof. exact ReaderTies.reader_tied_holds. Qed.
+
 Print Assumptions C03_fields.
 Print Assumptions C03_no_other_fields.
 Print Assumptions C03_since_is_lex.
 Print Assumptions C03_total.
 Print Assumptions C03_parsed_fields.
+Print Assumptions C03_reader_is_the_source.
